@@ -117,4 +117,64 @@ def firstMoved (fixed : Id → Bool) (last : Array Nat) : List SObj → Option S
     if fixed o.id && last.getD o.id 0 != 0 && last.getD o.id 0 != o.ref then some o
     else firstMoved fixed last rest
 
+/-! ## C02 at an allocation -/
+
+/-- Does the new allocation `x` clash with an allocation made since the last pause (`true`), or with an
+object of the last snapshot that is still reachable in the shadow heap (`false`)? `reach` is only
+computed when some snapshot interval is hit at all. -/
+def allocClash (h : Heap) (fresh snap : List Iv) (x : Iv) : Option (Bool × Iv) :=
+  match firstOverlap x fresh with
+  | some y => some (true, y)
+  | none =>
+    match firstOverlap x snap with
+    | none => none
+    | some _ =>
+      let r := reach h
+      (snap.find? fun y => (firstOverlap x [y]).isSome && r.getD y.id false).map fun y => (false, y)
+
+/-! ## C03 at an allocation -/
+
+/-- object size the harness requests for `nfields` reference slots and `payload` bytes
+(harness/src/vm.rs `obj::size_for`; `refoff` = OBJECT_REF_OFFSET: 8, or 0 with `unified_ref`) -/
+def sizeFor (refoff nf payload : Nat) : Nat :=
+  let raw := refoff + 24 + 8 * nf + payload
+  Nat.max 32 ((raw + 7) / 8 * 8)
+
+structure AllocRes where
+  a : Nat
+  r : Nat
+  sz : Nat
+  zero : Bool
+  inmmtk : Bool
+  space : String
+  deriving Repr
+
+/-- the clauses of C03 on one `alloc` result, in the order they are reported -/
+def checkAlloc (refoff nf payload align offset : Nat) (want : String) (x : AllocRes) : Option String :=
+  if x.a == 0 then some "gc:null-no-oom"
+  else if align == 0 || (x.a + offset) % align != 0 then some "gc:misaligned"
+  else if x.sz != sizeFor refoff nf payload then some "gc:size"
+  else if !x.inmmtk then some "gc:not-in-mmtk"
+  else if !x.zero then some "gc:not-zeroed"
+  else if x.space != want then some "gc:wrong-space"
+  else if x.r != x.a + refoff then some "prog:ref-offset"
+  else none
+
+/-! ## C09: the floor rule -/
+
+structure Floor where
+  samples : Nat := 0
+  floor : Nat := 0
+  deriving Repr
+
+/-- one `used` sample after an exhaustive GC: the first `warm` samples establish the floor (their
+maximum); every later sample must stay `≤ floor + slack`. Returns the new state and the verdict. -/
+def floorStep (warm slack : Nat) (f : Floor) (used : Nat) : Floor × Bool :=
+  if f.samples < warm then ({ samples := f.samples + 1, floor := Nat.max f.floor used }, true)
+  else ({ f with samples := f.samples + 1 }, decide (used ≤ f.floor + slack))
+
+def floorRun (warm slack : Nat) : Floor → List Nat → Bool
+  | _, [] => true
+  | f, u :: rest => let (f', ok) := floorStep warm slack f u; ok && floorRun warm slack f' rest
+
 end Mmtk.Heap
